@@ -2,7 +2,8 @@
 EXTENDS ConsensusQueue, Json
 CONSTANTS Family, EmitAt, MaxOps
 VARIABLE hist
-Shares5 == <<5000000, 3000001, 1000002, 1000000, 0>>   \* raw shares of the driver's world (see harness/drivers/cqueue)
+Shares5 == <<5000000, 3000001, 1000002, 1000000, 0>>
+Shares4 == <<5000000, 3000001, 1000002, 1000000>>     \* the same world without the late validator   \* raw shares of the driver's world (see harness/drivers/cqueue)
 H(a, r) == hist' = Append(hist, [act |-> a, args |-> r])
 Ids == DOMAIN msgs \cup {nextId}         \* existing ids plus one that does not exist
 SlcIds == {i \in DOMAIN msgs : msgs[i].kind = "slc"} \cup {nextId}
@@ -10,7 +11,7 @@ GPut == nextId <= MaxMsgs /\ \E k \in {"ref", "slc"} : (Family \in {"ev", "prune
                                                         /\ Put(k) /\ H("Put", [kind |-> k])
 \* rejected requests are generated for one canonical validator only (they all leave the state unchanged)
 SignOk(v, id, mode) == id \in DOMAIN msgs /\ v \notin jailed /\ mode = "good" /\ msgs[id].kind = "slc" /\ ~\E s \in msgs[id].sigs : s.val = v
-GSign == \E v \in Vals, id \in SlcIds, mode \in {"good", "stale", "badkey", "garbage"} :
+GSign == \E v \in Vals, id \in SlcIds, mode \in {"good", "stale", "badkey", "otherchain", "garbage"} :
            /\ (mode # "good" => id \in DOMAIN msgs)
            /\ (SignOk(v, id, mode) \/ v = 2)
            /\ Sign(v, id, mode) /\ H("Sign", [v |-> v, id |-> id, mode |-> mode])
@@ -34,6 +35,14 @@ GNext == CASE Family = "ev"  -> GPut \/ GEvidence \/ GSetErr \/ GEndBlock \/ GAd
            [] Family = "prune" -> GPut \/ GEvidence \/ GEndBlockT \/ (height = 1 /\ Advance(349) /\ H("Advance", [dh |-> 349]))
            [] Family = "sig" -> GPut \/ GSign \/ GEstimate \/ GReReg \/ GReassign \/ GEndBlock
            [] OTHER -> GPut \/ GSign \/ GEstimate \/ GEvidence \/ GSetPAD \/ GSetErr \/ GReReg \/ GReassign \/ GEndBlock \/ GAdvance
+\* "resnap" family (world without the late validator): a validator re-registers its key, the snapshot is rebuilt (so the
+\* relayer address the assigner hands out changes) and orphaned messages are re-assigned, preferably to the SAME validator
+GSignGood == \E v \in Vals, id \in SlcIds : SignOk(v, id, "good") /\ Sign(v, id, "good") /\ H("Sign", [v |-> v, id |-> id, mode |-> "good"])
+GReRegSnap == \E v \in Vals : keyver[v] <= 1 /\ ReRegister(v) /\ H("ReRegister", [v |-> v, snap |-> TRUE])
+\* transition cover (the post-state of a re-assignment merges who signed and who re-registered)
+GReassignSame == (\E id \in DOMAIN msgs : msgs[id].kind = "slc") /\ (\A id \in DOMAIN msgs : msgs[id].asg < 1) /\ Reassign /\ H("Reassign", [x |-> 0, same |-> TRUE])
+                 /\ PrintT(<<"HIST", ToJson(hist')>>)
+GNextS == GPut \/ GSignGood \/ GReRegSnap \/ GReassignSame
 GInit == Init /\ hist = <<>>
 Last == IF hist = <<>> THEN <<>> ELSE hist[Len(hist)]
 GView == <<Last, res, msgs, nextId, keyver, refHeight, jailed, height>>
